@@ -18,6 +18,7 @@ ASSUMPTIONS = ["hard-decision PPM expressions 1 - Q*(1-Q)^(M-1) are accepted dow
                "grid-minimised quantities must lie in [true minimum, max(g(r* +- pitch/2))] with g the error integral and r* its true minimiser",
                "soft-decision values are compared at rtol 1e-3 + atol 5e-7: the library integrates with scipy.quad at default tolerances (observed absolute error up to 4e-8 on values of 3e-4)",
                "threshold-in-[mu0,mu1] clause of optimum_threshold asserted for mu1-mu0 >= 4*max(s0,s1)",
+               "receiver configurations whose OFF-level variance is exactly zero (T = 0, unamplified, ER = inf) are skipped: the error integral is undefined there",
                "unamplified receivers are described with G = 0 dB and a finite BW_opt (the model's formulas use both)"]
 TOLERANCES = {"soft_rtol": 1e-3, "soft_atol": 5e-7, "grid_lower_rtol": 1e-8, "model_rtol": 1e-9}
 MIN_CHECKS = {"ook.value": 300, "ppm.hard": 200, "ppm.soft": 200, "estimator": 200, "threshold": 200, "model.voltages": 200, "model.variances": 200, "utils.theory_ber": 200}
@@ -221,7 +222,7 @@ def rand_receiver(rng):
     BW_el = float(10 ** rng.uniform(8.5, 10.5))
     return dict(P_avg=float(rng.uniform(-50, 0)), ER=float(rng.uniform(3, 40)) if rng.integers(4) else np.inf, amplify=amplify,
                 wavelength=float(rng.choice([1550e-9, 1310e-9, 1565e-9])), G=float(rng.uniform(0, 40)) if amplify else 0.0, NF=float(rng.uniform(3, 10)),
-                BW_opt=BW_el * float(rng.uniform(1.05, 30)), r=float(rng.uniform(0.05, 1)), BW_el=BW_el, R_L=float(10 ** rng.uniform(1, 4)), T=float(rng.uniform(0, 400)),
+                BW_opt=BW_el * float(rng.uniform(1.05, 30)), r=float(rng.uniform(0.05, 1)), BW_el=BW_el, R_L=float(10 ** rng.uniform(1, 4)), T=float(rng.uniform(0, 400)) if rng.integers(10) else 0.0,
                 NF_el=float(rng.uniform(0, 10)) if rng.integers(2) else 0.0)
 
 
@@ -282,6 +283,8 @@ def w_utils_ber(ctx, rng, i):
     # scan P_avg for a Q-factor between 1 and 7
     for _ in range(40):
         mu_ref, _, _, S_ref, _ = model(p, M)
+        if not (S_ref.max() > 0):
+            raise core.Skip()
         q = (mu_ref[1] - mu_ref[0]) / (math.sqrt(S_ref[0]) + math.sqrt(S_ref[1]))
         if 0.7 <= q <= 7:
             break
@@ -289,6 +292,8 @@ def w_utils_ber(ctx, rng, i):
     if not (-70 <= p["P_avg"] <= 10):
         raise core.Skip()
     mu_ref, _, _, S_ref, _ = model(p, M)
+    if not (S_ref.min() > 0):
+        raise core.Skip()            # T = 0 with an unamplified, infinitely extinguished OFF level: zero variance, the error integral is not defined
     s0, s1 = math.sqrt(S_ref[0]), math.sqrt(S_ref[1])
     ctx.describe(modulation=modulation, M=M, decision=decision, **p)
     args = dict(M=M, decision=decision, ER=p["ER"], amplify=p["amplify"], f0=f0, G=p["G"], NF=p["NF"], BW_opt=p["BW_opt"], r=p["r"], BW_el=p["BW_el"], R_L=p["R_L"], T=p["T"], NF_el=p["NF_el"])
